@@ -1,30 +1,43 @@
 CFG = dict(
     prop="C17", level="proof", harness="c17",
     props_files=["theories/Props/C17.v"], corr_file="theories/Corr/C17.v", corr_module="Corr.C17",
-    groups={"loop": False},
-    show_fn={"loop": "model"},
+    groups={"loop": False, "mask": False},
+    show_fn={"loop": "model", "mask": "mask_model"},
     shard=300,
     design_ref="DESIGN.md 6.17, notes/C17.md",
-    technique="Coq proof about a Gallina model of the fix loop of Linter::lint_fix_parsed (phases, pass limits, rule set of a "
-              "pass, fix-compatibility skip, previous_versions guard, changed flag, exits), parametric in the rule/apply "
-              "oracles + replay of the model on the recorded oracle answers of real fix runs + direct observation",
+    technique="Coq proof about a Gallina model of the fix loop of Linter::lint_fix_parsed (noqa mask step between Rule::crawl and "
+              "the reported/fixed results, phases, pass limits, rule set of a pass, fix-compatibility skip, previous_versions guard, "
+              "changed flag, exits), parametric in the rule/mask/apply oracles + replay of the model on the recorded oracle answers "
+              "of real fix runs + direct observation",
     level_text="C17_clean (no rule has a fix on the initial tree => the loop returns it, for every instance of the oracles), "
                "C17_clean_bytes (with the C04 patch pipeline the file is written back byte-identical), "
+               "C17_lint_clean_untouched (mask step inside the model: lint reports nothing, be it because every result is silenced "
+               "by a noqa directive => the loop returns the initial tree), C17_first_batch_rule / C17_first_batch_is_reported (a fix "
+               "run starts from a violation lint reports), "
                "C17_exit_nochange_is_fixpoint and C17_idempotent_decomposition (fix(fix x) = fix x from re-parse stability, "
                "convergence and lossless parse, determinism being the functionality of the oracles) are closed Coq theorems. "
                "The loop model is tied to the code on every run: every recorded fix run (hook events with trees interned by "
                "structure and positions) is replayed through the model, which must predict exactly which batches were "
-               "accepted or rejected by the guard, every pass end with its changed flag, and the final tree.",
+               "accepted or rejected by the guard, every pass end with its changed flag, and the final tree; the mask step is tied separately (group mask): from the raw Rule::crawl results on the initial "
+               "tree and IgnoreMask::is_masked's answers the model must predict how many violations of each rule lint reports and "
+               "which rule produces the first batch of the fix run.",
     level_note="Idempotence itself is not a theorem about the code: it is decomposed into three hypotheses that are monitored "
-               "per input (diagnostic) while fix(fix x) = fix x and lint(fix x) are observed directly; rule bodies, the noqa "
-               "mask and apply_fixes are oracles (recorded answers). Byte-identity is compared after the linter's newline "
+               "per input (diagnostic) while fix(fix x) = fix x and lint(fix x) are observed directly; rule bodies, "
+               "IgnoreMask::is_masked and apply_fixes are oracles (recorded answers). Byte-identity is compared after the linter's newline "
                "normalisation (CR/CRLF inputs counted separately).",
     rule="fix runs over dialect fixture files, layout/case-perturbed fixture files and rule yaml snippets x 7 rule selections "
-         "(4 layout-only) x 3 line-length settings; per run the hook's event stream is replayed through the Gallina loop model "
-         "(group loop) and fix is repeated (determinism), applied to its own output (idempotence, layout selections) and "
-         "re-linted. non-trivial = at least one batch of fixes was applied; distinct = distinct (oracle tables, events)",
+         "(4 layout-only) x 3 line-length settings; the same sources with noqa directives derived from what lint reports (line "
+         "directives with/without codes, disable=all, disable/enable ranges, block comments, partial) x 11 selections; rule "
+         "snippets and fixture files with max_line_length put on (a line a rewriting rule reports on) + d under selections that "
+         "mix the 13 layout rules with rewriting rules (layout + the snippet's own rule, core, all, layout + CV*, layout + AL/CP/ST/RF). "
+         "per run the hook's event stream is replayed through the Gallina loop model (group loop), the mask step through the mask "
+         "model (group mask), and fix is repeated (determinism), compared with lint (clean => untouched, first batch comes from a "
+         "reported violation), applied to its own output (idempotence, every selection containing the layout rules in the added "
+         "classes) and re-linted. non-trivial = at least one batch of fixes was applied (loop) / at least one masked result "
+         "(mask); distinct = distinct (oracle tables, events)",
     assumptions=["trees are identified by kind/raw/position structure when interned for the oracle tables",
                  "inputs on which parsing, a rule or apply_fixes panics are skipped and counted (C03)",
-                 "byte-identity of clean files is compared after Linter::normalise_newlines (CRLF -> LF)"],
+                 "byte-identity of clean files is compared after Linter::normalise_newlines (CRLF -> LF)",
+                 "results without a rule (the marker Rule::crawl leaves when a rule body panics, C03) are left out of the mask tables"],
     trusted_extra=["verif hook: core.rs verif_hook::FixEvent (Start/Batch/PassEnd/End)"],
 )
